@@ -108,7 +108,7 @@ func C03(p *core.Prog, rep *core.Report) {
 
 // eof1: end of log is decided by sizes, never by content.
 func eof1(p *core.Prog, rep *core.Report) {
-	rep.Rule("EOF1", "end of log is decided by sizes only: in the chunk readers every return of io.EOF is control dependent on a comparison whose operands derive from the file's logical size (Size() / the fields it reads); a chunk is never skipped because of what its bytes contain; and a success return is reached only after a record-ending chunk type was seen")
+	rep.Rule("EOF1", "end of log is decided by sizes only: in the chunk readers every return of io.EOF is control dependent on a comparison whose operands derive from the file's logical size (Size() / the fields it reads); a chunk is never skipped because of what its bytes contain; and a success return is reached only after a record-ending chunk type was seen; outside the readers no function returns io.EOF under a condition computed from the bytes it was given (content never means end of log)")
 	sizeFields := map[*types.Var]bool{}
 	sz := p.MustMethod(p.R.DataFile, "Size")
 	for _, b := range sz.Blocks {
@@ -240,6 +240,99 @@ func eof1(p *core.Prog, rep *core.Report) {
 	if n < 3 {
 		core.Failf("vacuity guard: EOF1 expected >= 3 io.EOF returns in the chunk readers, found %d", n)
 	}
+	// EOF1c: only sizes say "end of log". A decoder that answers io.EOF for some byte pattern (an all-zero header,
+	// say) or for a short input makes the scan stop at damage instead of reporting it. A helper that compares
+	// offsets with sizes handed to it is fine: the rule looks at what the controlling conditions are computed from.
+	isReader := map[*ssa.Function]bool{}
+	for _, fn := range chunkReaders(p) {
+		isReader[fn] = true
+	}
+	isBytes := func(t types.Type) bool {
+		sl, ok := t.Underlying().(*types.Slice)
+		if !ok {
+			return false
+		}
+		b, ok := sl.Elem().Underlying().(*types.Basic)
+		return ok && b.Kind() == types.Uint8
+	}
+	var fromBytes func(v ssa.Value, d int) bool
+	fromBytes = func(v ssa.Value, d int) bool {
+		if v == nil || d > 10 {
+			return false
+		}
+		switch u := v.(type) {
+		case *ssa.BinOp:
+			return fromBytes(u.X, d+1) || fromBytes(u.Y, d+1)
+		case *ssa.Convert:
+			return fromBytes(u.X, d+1)
+		case *ssa.ChangeType:
+			return fromBytes(u.X, d+1)
+		case *ssa.Phi:
+			for _, e := range u.Edges {
+				if fromBytes(e, d+1) {
+					return true
+				}
+			}
+		case *ssa.Extract:
+			return fromBytes(u.Tuple, d+1)
+		case *ssa.UnOp:
+			if u.Op == token.MUL {
+				if ia, ok := u.X.(*ssa.IndexAddr); ok {
+					return isBytes(ia.X.Type()) || fromBytes(ia.X, d+1)
+				}
+				return false
+			}
+			return fromBytes(u.X, d+1)
+		case *ssa.Slice:
+			return isBytes(u.X.Type()) || isBytes(u.Type())
+		case *ssa.Parameter:
+			return isBytes(u.Type())
+		case *ssa.Call:
+			for _, a := range u.Call.Args {
+				if isBytes(a.Type()) || fromBytes(a, d+1) {
+					return true
+				}
+			}
+		}
+		return false
+	}
+	var bad []string
+	nf := 0
+	for _, fn := range p.LibFuncs() {
+		if fn.Package() == nil || fn.Package().Pkg.Path() != core.ModPath+"/datafile" || isReader[fn] {
+			continue
+		}
+		ei := core.ErrResultIndex(fn.Signature)
+		if ei < 0 {
+			continue
+		}
+		nf++
+		for _, r := range core.Returns(fn) {
+			isEOF := false
+			for _, o := range core.Origins(core.ReturnOperand(r, ei)) {
+				if u, ok := o.(*ssa.UnOp); ok {
+					if g, ok := u.X.(*ssa.Global); ok && g.Name() == "EOF" && g.Pkg != nil && g.Pkg.Pkg.Path() == "io" {
+						isEOF = true
+					}
+				}
+			}
+			if !isEOF {
+				continue
+			}
+			// conditions controlling the return: the Ifs on the dominator chain of the returning block
+			for b := r.Block(); b != nil; b = b.Idom() {
+				iff, ok := b.Instrs[len(b.Instrs)-1].(*ssa.If)
+				if !ok || b == r.Block() {
+					continue
+				}
+				if fromBytes(iff.Cond, 0) {
+					bad = append(bad, core.FuncKey(fn)+" returns io.EOF at "+p.InstrPos(r)+" under a condition computed from the bytes it was given ("+p.InstrPos(iff)+"): a decoder cannot know where the log ends; bytes that decode to 'end' make damage look like a clean end of file")
+					break
+				}
+			}
+		}
+	}
+	rep.Check(len(bad) == 0, "EOF1", "eof-only-from-readers", fmt.Sprintf("none of the %d error-returning non-reader functions of package datafile returns io.EOF under a condition computed from the bytes it decodes", nf), "", strings.Join(sortedStr(bad), "; "), true)
 }
 
 func C10(p *core.Prog, rep *core.Report) {
@@ -425,6 +518,7 @@ func C19(p *core.Prog, rep *core.Report) {
 	}
 	metadataCodec(p, rep)
 	tb4Tags(p, rep)
+	list1Deque(p, rep)
 	// S4: every structure update is a batch: the batch durability clauses (C04) apply
 	v := newVF(p, rep)
 	v.vf3Tagging()
